@@ -24,26 +24,7 @@ PID = "C03"
 TRANSLATORS = ["T-panic", "T-runtest"]
 
 # Genuine defects of halmos w.r.t. C03 shown by this check on the unchanged tree (see final report).
-KNOWN = [
-    {
-        "id": "C03-symbolic-panic-code",
-        "property": "C03",
-        "what": "a path reverting with Panic(x) whose code x is a symbolic term not pinned by an equality branch (e.g. "
-                "`check(uint256 x, uint256 y) { if (y > 5) revert Panic(x) }`) is not classified as an assertion failure "
-                "(CallOutput.is_panic_of: 'symbolic error code will be silently ignored'): halmos prints a clean [PASS] although "
-                "x = 1, y = 6 ends the concrete execution in Panic(1)",
-        "match": {"kind": "clean-pass-with-violation", "family": "symbolic-panic-code"},
-    },
-    {
-        "id": "C03-calldatasize-fixed-layout",
-        "property": "C03",
-        "what": "symbolic calldata always has the size of the LARGEST length candidate of every dynamic parameter, so a failure "
-                "that depends on msg.data.length (or on a tail offset) of a shorter admissible argument is missed: "
-                "`check(bytes b)` with `if (calldatasize == 68) Panic(1)` prints a clean [PASS]; b = \"\" (canonical ABI encoding, "
-                "68 bytes) violates",
-        "match": {"kind": "clean-pass-with-violation", "family": "calldatasize"},
-    },
-]
+KNOWN = common.known_for("C03")  # entries live in /verif/known_findings.json
 
 ASSUMPTIONS = [
     "composition theorem C03_pass_sound: per-transaction completeness and soundness of exploration (C01/C02), query = path constraints (C11), truthful external solver, sound unsat-core cache (C16) and exact refinement (C04/C11) are Section hypotheses visible in the statement; 36-byte revert data concrete (documented caveat, shown necessary by C03_pass_sound_symbolic_code_refuted)",
